@@ -52,6 +52,9 @@ def _norm(t):
     if k in ('ref', 'deref'):
         return norm(t[1])
     if k == 'cast':
+        ty = t[3] if len(t) > 3 else None
+        if t[1] == "IntToInt" and ty in PRIM_BITS and PRIM_BITS[ty] < 64:
+            return ('narrow', PRIM_BITS[ty], norm(t[2]))     # truncation: only `<= operand` and the width bound survive
         return norm(t[2])
     if k == 'field' and t[2] == '0' and isinstance(t[1], tuple):
         x = t[1]
@@ -59,10 +62,20 @@ def _norm(t):
             x = x[2] if x[0] == 'cast' else x[1]
         if x[0] == 'bin' and x[1].endswith("WithOverflow"):
             return norm(('bin', x[1][:-len("WithOverflow")], x[2], x[3]))
-    if k == 'call' and t[2] and canon(t[1]).split("::")[-1] == "len" and _LEN_OWNER.search(canon(t[1])):
-        return ('len', container(t[2][0]))
-    if k == 'un' and t[1] == 'PtrMetadata':
-        return ('len', container(t[2]))
+    if (k == 'call' and t[2] and canon(t[1]).split("::")[-1] == "len" and _LEN_OWNER.search(canon(t[1]))) or (k == 'un' and t[1] == 'PtrMetadata'):
+        c = container(t[2][0] if k == 'call' else t[2])
+        if c[0] == 'agg' and c[1] == 'repeat':
+            m = re.search(r"(\d+)", str(c[2]))
+            if m:
+                return ('const', int(m.group(1)))
+        return ('len', c)
+    if k == 'call' and len(t[2]) == 1 and canon(t[1]).split("::")[-1] == "len" and re.search(r"VolatileSlice|VolatileMemory", canon(t[1])):
+        return norm(('field', t[2][0], 'size'))         # VolatileSlice::len() is the getter of `size`
+    if k == 'field' and t[2] == 'size':
+        x = norm(t[1])
+        if x[0] == 'ok' and x[1][0] == 'call' and len(x[1][2]) == 3 and canon(x[1][1]).endswith("VolatileSlice::subslice"):
+            return x[1][2][2]                            # a successful subslice(o, n) is exactly n bytes long (C01 R1.2 on its body)
+        return ('field', x, 'size')
     r = map_children(t, norm)
     if r[0] == 'bin' and r[1] in _COMM and repr(r[3]) < repr(r[2]):
         r = ('bin', r[1], r[3], r[2])
@@ -219,6 +232,9 @@ class Bounds:
             return None
         if t[0] == 'len':
             return ISIZE_MAX
+        if t[0] == 'narrow':
+            u = self.ub(t[2], d + 1)
+            return min(u, (1 << t[1]) - 1) if u is not None else (1 << t[1]) - 1
         if t[0] == 'ok':
             rg = _range_of_item(t)
             if rg:
@@ -294,6 +310,8 @@ class Bounds:
                 return PRIM_SIZE[t[3][0]]
             if n == "align_of":
                 return 1
+            if n == "sysconf" and a and a[0] == ('const', 30):
+                return 1          # _SC_PAGESIZE: the page size is positive (POSIX; environment, not guest data)
             if n == "saturating_add" and len(a) == 2:
                 return max(self.lb(a[0], d + 1), self.lb(a[1], d + 1))
             if n == "div_ceil" and len(a) == 2:
@@ -353,6 +371,11 @@ class Bounds:
                 return True
             if x == c and op in ('Ge', 'Gt', 'Eq') and y != c and self.le(a, y, d + 1):
                 return True
+        # a = x + y <= c  when  y <= c - x  and  x <= c
+        if a[0] == 'bin' and a[1] == 'Add':
+            for x, y in ((a[2], a[3]), (a[3], a[2])):
+                if self.le(x, c, d + 1) and self.le(y, norm(('bin', 'Sub', c, x)), d + 1):
+                    return True
         # a = p - q  and  c = r - q  with p <= r   (same subtrahend)
         if a[0] == 'bin' and c[0] == 'bin' and a[1] == c[1] == 'Sub' and norm(a[3]) == norm(c[3]) and self.le(a[2], c[2], d + 1):
             return True
@@ -389,6 +412,8 @@ class Bounds:
                 out.append(('len', container(g[0])))
             elif n == "position" and g and False:
                 pass
+        elif a[0] == 'narrow':
+            out.append(a[2])
         elif a[0] == 'vfield' and a[2] == 'Err' and _search_hay(a[1]) is not None:
             out.append(('len', _search_hay(a[1])))         # binary search: Err(i) has i <= len
         elif a[0] == 'ok':
@@ -521,6 +546,8 @@ class Bounds:
         if a[0] == 'bin' and a[1] == 'Mul' and self.nonzero(a[2]) and self.nonzero(a[3]):
             return True
         if a[0] == 'bin' and a[1] == 'Shl' and self.const(a[2]) == 1:
+            return True
+        if a[0] == 'bin' and a[1] == 'Sub' and self.lt(a[3], a[2]):
             return True
         if _is(a, "max") and any(self.nonzero(x) for x in _args(a)):
             return True
